@@ -34,9 +34,14 @@ def check(repo: Repo, rep, tier):
 
     io_encoding(repo, rep)
     codegen_pure(repo, rep)
-    from .C03 import line_model
+    from .C03 import line_model, import_scope
 
     line_model(repo, rep)
+    import_scope(repo, rep)
+    from .C14 import accumulate
+
+    # a created bound / member set is what all evaluations observed, not the first one
+    accumulate(repo, rep)
 
 
 def create_exh(repo: Repo, rep):
